@@ -99,63 +99,105 @@ def param_names(fn: ast.AST) -> List[str]:
 
 
 class Inliner:
-    """Substitute single-assignment locals by their definition (E1 'inline temporaries')."""
+    """Substitute single-assignment locals by their definition (E1 'inline temporaries').
+
+    flow=True (used by Canon): a definition `x = E` is substituted at a use only if nothing E reads - and not the object x
+    itself - is written between the definition and the use (re-assignment of a name, `o[..] = v`, `o.a = v`, `del o[..]`,
+    `o.method(..)` called for its effect; a loop around the use counts with its whole body).  Objects that are written through
+    thus keep their identity and a value is never moved across a write it depends on."""
 
     def __init__(self, fn: ast.AST, max_depth: int = 8, skip_mutated: bool = False):
         self.defs = local_defs(fn)
         self.params = set(param_names(fn))
         self.max_depth = max_depth
-        self.mutated = set()       # bare locals that are objects written through / called for effect
-        self.mutated_paths = set()  # (base name, first attribute) written, e.g. ("self", "timepoints")
-        if skip_mutated:
-            # locals written through (x[..] = v, x.a = v, del x[..]) or used as the receiver of a call whose result is
-            # discarded (x.append(v)) are objects with identity: substituting their constructor would duplicate them;
-            # a definition that reads such an object (or a written attribute path) depends on when it is evaluated.
-            def note(x):
-                chain = []
-                b = x
-                while isinstance(b, (ast.Subscript, ast.Attribute)):
-                    chain.append(b)
-                    b = b.value
-                if not isinstance(b, ast.Name):
-                    return
-                inner = chain[-1] if chain else None
-                if isinstance(inner, ast.Attribute):
-                    self.mutated_paths.add((b.id, inner.attr))
-                else:
-                    self.mutated.add(b.id)
-            for n in ast.walk(fn):
-                tg = []
-                if isinstance(n, (ast.Assign, ast.AugAssign, ast.AnnAssign)):
-                    tg = store_targets(n)
-                elif isinstance(n, ast.Delete):
-                    tg = n.targets
-                elif isinstance(n, ast.For):
-                    tg = [n.target]
-                for t in tg:
-                    for x in ast.walk(t):
-                        if isinstance(x, (ast.Subscript, ast.Attribute)) and isinstance(x.ctx, (ast.Store, ast.Del)):
-                            note(x)
-                if isinstance(n, ast.Expr) and isinstance(n.value, ast.Call) and isinstance(n.value.func, ast.Attribute):
-                    rcv = n.value.func.value
-                    if not (isinstance(rcv, ast.Name) and rcv.id in ("self", "cls")):  # self.helper(...) is not taken as a write to every attribute
-                        note(rcv)
+        self.flow = skip_mutated
+        self.events: List[Tuple[int, tuple]] = []   # (line, key) with key = ("name", x) | ("path", base, attr)
+        self.loops: List[Tuple[int, int]] = []
+        if not self.flow:
+            return
 
-    def _time_dependent(self, e: ast.AST) -> bool:
+        def note(x, line):
+            chain = []
+            b = x
+            while isinstance(b, (ast.Subscript, ast.Attribute)):
+                chain.append(b)
+                b = b.value
+            if not isinstance(b, ast.Name):
+                return
+            inner = chain[-1] if chain else None
+            if isinstance(inner, ast.Attribute):
+                self.events.append((line, ("path", b.id, inner.attr)))
+            else:
+                self.events.append((line, ("name", b.id)))
+        for n in ast.walk(fn):
+            line = getattr(n, "lineno", None)
+            if isinstance(n, (ast.For, ast.AsyncFor, ast.While)):
+                self.loops.append((n.lineno, n.end_lineno or n.lineno))
+            tg = []
+            if isinstance(n, (ast.Assign, ast.AugAssign, ast.AnnAssign)):
+                tg = store_targets(n)
+                line = getattr(n, "end_lineno", line) or line
+            elif isinstance(n, ast.Delete):
+                tg = n.targets
+            elif isinstance(n, (ast.For, ast.AsyncFor)):
+                tg = [n.target]
+            elif isinstance(n, ast.NamedExpr):
+                tg = [n.target]
+            for t in tg:
+                for x in ast.walk(t):
+                    if isinstance(x, (ast.Subscript, ast.Attribute)) and isinstance(x.ctx, (ast.Store, ast.Del)):
+                        note(x, line)
+                    elif isinstance(x, ast.Name) and isinstance(x.ctx, (ast.Store, ast.Del)):
+                        self.events.append((line, ("name", x.id)))
+            if isinstance(n, ast.Expr) and isinstance(n.value, ast.Call) and isinstance(n.value.func, ast.Attribute):
+                rcv = n.value.func.value
+                if not (isinstance(rcv, ast.Name) and rcv.id in ("self", "cls")):  # self.helper(...) is not taken as a write to every attribute
+                    note(rcv, n.lineno)
+            if isinstance(n, ast.Expr) and isinstance(n.value, ast.Call):
+                for a_ in list(n.value.args) + [k.value for k in n.value.keywords]:  # f(x) called for its effect may write through x
+                    if isinstance(a_, ast.Name):
+                        self.events.append((n.lineno, ("name", a_.id)))
+
+    @staticmethod
+    def _reads(e: ast.AST) -> set:
+        keys = set()
         for x in ast.walk(e):
-            if isinstance(x, ast.Name) and x.id in self.mutated:
+            if isinstance(x, ast.Name):
+                keys.add(("name", x.id))
+            elif isinstance(x, ast.Attribute) and isinstance(x.value, ast.Name):
+                keys.add(("path", x.value.id, x.attr))
+        return keys
+
+    def _blocked(self, name: str, v: ast.AST, use_line: Optional[int]) -> bool:
+        keys = self._reads(v) | {("name", name)}
+        d0 = getattr(v, "lineno", None)
+        d1 = getattr(v, "end_lineno", d0)
+        hits = [ln for ln, k in self.events if k in keys and not (k == ("name", name) and d0 is not None and ln is not None and d0 <= ln <= d1)]
+        if not hits:
+            return False
+        if any(k == ("name", name) and not (d0 is not None and ln is not None and d0 <= ln <= d1) for ln, k in self.events):
+            return True  # x is an object that is written through somewhere: it keeps its identity everywhere
+        if use_line is None or d1 is None:
+            return True
+        lo, hi = d1, use_line
+        spans = [(lo, hi)] if hi >= lo else [(hi, lo)]
+        for ls, le in self.loops:
+            if ls <= use_line <= le and not (ls <= d1 <= le):
+                spans.append((ls - 1, le))
+        for ln in hits:
+            if ln is None:
                 return True
-            if isinstance(x, ast.Attribute) and isinstance(x.value, ast.Name) and (x.value.id, x.attr) in self.mutated_paths:
+            if any(a_ < ln <= b_ for a_, b_ in spans):
                 return True
         return False
 
-    def single(self, name: str) -> Optional[ast.AST]:
-        if name in self.params or name in self.mutated:
+    def single(self, name: str, use_line: Optional[int] = None) -> Optional[ast.AST]:
+        if name in self.params:
             return None
         vs = self.defs.get(name)
         if vs and len(vs) == 1 and vs[0] is not None:
-            if (self.mutated or self.mutated_paths) and self._time_dependent(vs[0]):
-                return None  # its value depends on when it is evaluated
+            if self.flow and self._blocked(name, vs[0], use_line):
+                return None
             return vs[0]
         return None
 
@@ -165,7 +207,7 @@ class Inliner:
         class T(ast.NodeTransformer):
             def visit_Name(self, n):
                 if isinstance(n.ctx, ast.Load) and depth < inl.max_depth:
-                    v = inl.single(n.id)
+                    v = inl.single(n.id, getattr(n, "lineno", None))
                     if v is not None:
                         return inl.resolve(copy.deepcopy(v), depth + 1)
                 return n
